@@ -370,6 +370,10 @@ class Reader:
                 data = self.consume("STRING")[1]
                 data = unhexlify(data)
                 ins = ir.LiteralData(data, name)
+            elif a == "volatile":
+                self.consume_keyword("load")
+                address = self.parse_value_ref()
+                ins = ir.Load(address, name, ty, volatile=True)
             elif a == "undefined":
                 ins = ir.Undefined(name, ty)
             elif self.at_keyword("rol") or self.at_keyword("ror"):
@@ -432,6 +436,13 @@ class Reader:
             self.consume(",")
             address = self.parse_value_ref()
             ins = ir.Store(value, address)
+        elif self.at_keyword("volatile"):
+            self.consume_keyword("volatile")
+            self.consume_keyword("store")
+            value = self.parse_value_ref()
+            self.consume(",")
+            address = self.parse_value_ref()
+            ins = ir.Store(value, address, volatile=True)
         elif self.at_keyword("memcpy"):
             self.consume_keyword("memcpy")
             self.consume("(")
